@@ -4,6 +4,7 @@ package vrt
 
 import (
 	"fmt"
+	"reflect"
 	"sort"
 	"unsafe"
 )
@@ -54,6 +55,24 @@ type RaceReport struct {
 	SiteA string
 	SiteB string
 	Kind  string
+}
+
+// Key identifies a race by variable and the unordered pair of functions (sites are "func@file:line").
+func (r RaceReport) Key() string {
+	fa, fb := funcOf(r.SiteA), funcOf(r.SiteB)
+	if fa > fb {
+		fa, fb = fb, fa
+	}
+	return r.Var + "|" + fa + "|" + fb
+}
+
+func funcOf(site string) string {
+	for i := 0; i < len(site); i++ {
+		if site[i] == '@' {
+			return site[:i]
+		}
+	}
+	return site
 }
 
 type raceState struct {
@@ -261,22 +280,26 @@ func Wr[T any](p *T, name, site string) *T {
 	return p
 }
 
-// MapR / MapW instrument map reads / writes (the map header as one location).
-func MapR[M any](m M, key unsafe.Pointer, name, site string) M {
+// MapR / MapW instrument map reads / writes (the map header is one location).
+func MapR[M ~map[K]V, K comparable, V any](m M, name, site string) M {
 	w := W
-	if w == nil || w.dead || w.race == nil || key == nil {
+	if w == nil || w.dead || w.race == nil || m == nil {
 		return m
 	}
+	key := reflect.ValueOf(m).UnsafePointer()
 	w.race.read(w.cur, key, name, site)
+	w.event(key, 0x42, 0)
 	return m
 }
 
-func MapW[M any](m M, key unsafe.Pointer, name, site string) M {
+func MapW[M ~map[K]V, K comparable, V any](m M, name, site string) M {
 	w := W
-	if w == nil || w.dead || w.race == nil || key == nil {
+	if w == nil || w.dead || w.race == nil || m == nil {
 		return m
 	}
+	key := reflect.ValueOf(m).UnsafePointer()
 	w.race.write(w.cur, key, name, site)
+	w.event(key, 0x43, 0)
 	return m
 }
 
